@@ -90,28 +90,28 @@ def cover : List (String × List Cover) := [
   ("amgcl/mpi/coarsening/smoothed_aggregation.hpp|smoothed_aggregation::operators|Af_loc_val", [.poison "h_mpi_solve_poison"]),
   ("amgcl/mpi/coarsening/smoothed_aggregation.hpp|smoothed_aggregation::operators|Af_rem_val", [.poison "h_mpi_solve_poison"]),
   ("amgcl/mpi/coarsening/smoothed_aggregation.hpp|smoothed_aggregation::operators|Df", [.poison "h_mpi_solve_poison"]),
-  ("amgcl/mpi/direct_solver/solver_base.hpp|solver_base::init|A.col+val", [.poison "h_mpi_solve_poison"]),
-  ("amgcl/mpi/direct_solver/solver_base.hpp|solver_base::init|A.ptr", [.poison "h_mpi_solve_poison"]),
-  ("amgcl/mpi/direct_solver/solver_base.hpp|solver_base::init|a.col+val", [.poison "h_mpi_solve_poison"]),
-  ("amgcl/mpi/direct_solver/solver_base.hpp|solver_base::init|a.ptr", [.poison "h_mpi_solve_poison"]),
-  ("amgcl/mpi/distributed_matrix.hpp|distributed_matrix::distributed_matrix|A_loc.col+val", [.poison "h_mpi_solve_poison"]),
-  ("amgcl/mpi/distributed_matrix.hpp|distributed_matrix::distributed_matrix|A_rem.col+val", [.poison "h_mpi_solve_poison"]),
+  ("amgcl/mpi/direct_solver/solver_base.hpp|solver_base::init|A.col+val", [.thm "Amgcl.C10g.solver_base_gather_defined", .poison "h_mpi_solve_poison"]),
+  ("amgcl/mpi/direct_solver/solver_base.hpp|solver_base::init|A.ptr", [.thm "Amgcl.C10g.solver_base_gather_defined", .poison "h_mpi_solve_poison"]),
+  ("amgcl/mpi/direct_solver/solver_base.hpp|solver_base::init|a.col+val", [.thm "Amgcl.C10g.solver_base_local_defined", .poison "h_mpi_solve_poison"]),
+  ("amgcl/mpi/direct_solver/solver_base.hpp|solver_base::init|a.ptr", [.thm "Amgcl.C10g.solver_base_local_defined", .poison "h_mpi_solve_poison"]),
+  ("amgcl/mpi/distributed_matrix.hpp|distributed_matrix::distributed_matrix|A_loc.col+val", [.thm "Amgcl.C10g.dist_matrix_split_defined", .poison "h_mpi_solve_poison"]),
+  ("amgcl/mpi/distributed_matrix.hpp|distributed_matrix::distributed_matrix|A_rem.col+val", [.thm "Amgcl.C10g.dist_matrix_split_defined", .poison "h_mpi_solve_poison"]),
   ("amgcl/mpi/distributed_matrix.hpp|product|C_loc.col+val", [.poison "h_mpi_solve_poison"]),
   ("amgcl/mpi/distributed_matrix.hpp|product|C_loc.ptr", [.poison "h_mpi_solve_poison"]),
   ("amgcl/mpi/distributed_matrix.hpp|product|C_rem.col+val", [.poison "h_mpi_solve_poison"]),
   ("amgcl/mpi/distributed_matrix.hpp|product|C_rem.ptr", [.poison "h_mpi_solve_poison"]),
-  ("amgcl/mpi/distributed_matrix.hpp|remote_rows|B_nbr.col+val", [.poison "h_mpi_solve_poison"]),
-  ("amgcl/mpi/distributed_matrix.hpp|remote_rows|B_nbr.ptr", [.poison "h_mpi_solve_poison"]),
+  ("amgcl/mpi/distributed_matrix.hpp|remote_rows|B_nbr.col+val", [.thm "Amgcl.C10g.remote_rows_nbr_defined", .poison "h_mpi_solve_poison"]),
+  ("amgcl/mpi/distributed_matrix.hpp|remote_rows|B_nbr.ptr", [.thm "Amgcl.C10g.remote_rows_nbr_defined", .poison "h_mpi_solve_poison"]),
   ("amgcl/mpi/distributed_matrix.hpp|remote_rows|m.col+val", [.poison "h_mpi_solve_poison"]),
   ("amgcl/mpi/distributed_matrix.hpp|remote_rows|m.ptr", [.poison "h_mpi_solve_poison"]),
-  ("amgcl/mpi/distributed_matrix.hpp|spectral_radius|b0", [.poison "h_mpi_poison"]),
-  ("amgcl/mpi/distributed_matrix.hpp|spectral_radius|b1", [.poison "h_mpi_poison"]),
-  ("amgcl/mpi/distributed_matrix.hpp|spectral_radius|rem_col", [.poison "h_mpi_poison"]),
-  ("amgcl/mpi/partition/util.hpp|graph_perm_matrix|I_loc.col+val", [.poison "h_mpi_solve_poison"]),
-  ("amgcl/mpi/partition/util.hpp|graph_perm_matrix|I_loc.ptr", [.poison "h_mpi_solve_poison"]),
-  ("amgcl/mpi/partition/util.hpp|graph_perm_matrix|I_rem.col+val", [.poison "h_mpi_solve_poison"]),
-  ("amgcl/mpi/partition/util.hpp|graph_perm_matrix|I_rem.ptr", [.poison "h_mpi_solve_poison"]),
-  ("amgcl/mpi/relaxation/spai0.hpp|spai0::spai0|m", [.poison "h_mpi_solve_poison"]),
+  ("amgcl/mpi/distributed_matrix.hpp|spectral_radius|b0", [.thm "Amgcl.C10g.mpi_spectral_radius_defined", .poison "h_mpi_poison"]),
+  ("amgcl/mpi/distributed_matrix.hpp|spectral_radius|b1", [.thm "Amgcl.C10g.mpi_spectral_radius_defined", .poison "h_mpi_poison"]),
+  ("amgcl/mpi/distributed_matrix.hpp|spectral_radius|rem_col", [.thm "Amgcl.C10g.mpi_rem_col_defined", .poison "h_mpi_poison"]),
+  ("amgcl/mpi/partition/util.hpp|graph_perm_matrix|I_loc.col+val", [.thm "Amgcl.C10g.graph_perm_matrix_defined", .poison "h_mpi_solve_poison"]),
+  ("amgcl/mpi/partition/util.hpp|graph_perm_matrix|I_loc.ptr", [.thm "Amgcl.C10g.graph_perm_matrix_defined", .poison "h_mpi_solve_poison"]),
+  ("amgcl/mpi/partition/util.hpp|graph_perm_matrix|I_rem.col+val", [.thm "Amgcl.C10g.graph_perm_matrix_defined", .poison "h_mpi_solve_poison"]),
+  ("amgcl/mpi/partition/util.hpp|graph_perm_matrix|I_rem.ptr", [.thm "Amgcl.C10g.graph_perm_matrix_defined", .poison "h_mpi_solve_poison"]),
+  ("amgcl/mpi/relaxation/spai0.hpp|spai0::spai0|m", [.thm "Amgcl.C10g.mpi_spai0_defined", .poison "h_mpi_solve_poison"]),
   ("amgcl/preconditioner/cpr.hpp|cpr::first_scalar_pass|App.col+val", [.poison "h_pipeline"]),
   ("amgcl/preconditioner/cpr.hpp|cpr::first_scalar_pass|fpp.col+val", [.thm "Amgcl.C10e.cpr_fpp_defined", .poison "h_pipeline"]),
   ("amgcl/preconditioner/cpr.hpp|cpr::first_scalar_pass|fpp.ptr", [.thm "Amgcl.C10e.cpr_fpp_defined", .poison "h_pipeline"]),
